@@ -7,7 +7,9 @@ Recipes (plain JSON), dispatched on "kind":
    "prealloc": [[k, "s3"|"fs2"|...]...]}
   {"kind": "L3", "nargs": n, "ops": [SOP...], "ret": [ref...], "inputs": [[v...]...]}
 
-PROG = {"args": [T...], "body": [STMT...], "ret": [[T, ref]...]}      one func.func @f, 1..2 results
+PROG = {"args": [T...], "body": [STMT...], "ret": [[T, ref]...], "ysafe": 0|1}   one func.func @f, 1..2 results
+  ysafe=1: the refs of a loop's scf.yield only see the values defined in the loop body and the iter_arg of
+  the same position (never the induction variable, another iter_arg or a value defined outside the loop)
   T    = "i32" | "index" | "f32" | "f64" ("i1" only as a result / operand of i1 ops)
   ref  = int: index (modulo) into the visible values OF THE REQUIRED TYPE counted backwards from the
          most recent one; if there is none a boundary constant is materialised -- every recipe builds.
@@ -21,7 +23,9 @@ PROG = {"args": [T...], "body": [STMT...], "ret": [[T, ref]...]}      one func.f
        | {"op": <float binary>|"negf", "t": FT, "a", "b"}
        | {"op": "for", "t": "index"|"i32", "lb": BOUND, "ub": BOUND, "step": 1..4, "iters": [[T, ref]...],
           "body": [STMT...], "y": [ref...]}         BOUND = {"c": small int} | {"r": ref, "m": mask 0..15}
-       | {"op": "call", "args": [[T, ref]...]}        calls @g(x...) = first argument type echo + 7 (i32 only)
+       | {"op": "if", "t": T, "c": ref(i1), "a": ref, "b": ref}      %r = scf.if %c -> (T) {yield a} else {yield b}
+       | {"op": "while", "t": "i32", "n": ref, "x": ref}  k = n & 7; while (k != 0) {x += k; k -= 1}; result x
+       | {"op": "call", "args": [["i32", ref]]}       calls @g(x) = x + 7
   inputs: one pattern per argument (ints: 32-bit pattern, f32: 32-bit pattern, f64: 64-bit pattern).
 
 SOP (L3, riscv-dialect snippet, all values are unallocated !riscv.reg):
@@ -31,8 +35,6 @@ SOP (L3, riscv-dialect snippet, all values are unallocated !riscv.reg):
      | {"op": "sw", "b": aref, "v": ref, "i": imm} | {"op": "lw", "b": aref, "i": imm}
 """
 from __future__ import annotations
-
-import traceback
 
 from hypothesis import strategies as st
 
@@ -61,7 +63,10 @@ RULE = (
     "registers (s0-s11, fs0-fs11) before allocation so that the prologue/epilogue pass has work; the "
     "emitted riscv-asm TEXT is executed by rvsim.AsmMachine from random register/stack state with ABI "
     "argument placement: a0/a1/fa0/fa1 = reference, s0-s11/fs0-fs11/sp unchanged, stack bytes at/above "
-    "the initial sp unchanged, only sp-relative stack accesses. L3: riscv-dialect snippets (li with "
+    "the initial sp unchanged, only accesses inside the stack window; plus the enumeration of every "
+    "supported binary op with each boundary constant on either side (f(x) = x op C, C op x) through the "
+    "whole pipeline. A wrong result is attributed to the first wrong stage (lowering / canonicalize / "
+    "backend) by re-evaluating the SSA program after those stages. L3: riscv-dialect snippets (li with "
     "immediate-range boundary constants, R/I-type ALU ops, shifts, mv, zero, sp-relative lw/sw through "
     "addi chains; enumerated: every R/I/shift op x {arg, zero, li c, mv(li c)} operand shapes x boundary "
     "constants, op-of-op immediates, sub(addi), sp-relative sw/lw offset pairs; plus random snippets) through "
@@ -161,8 +166,8 @@ def kind_of(stmt) -> str:
         return f"{op}/-/{_g(stmt, 't', '')}"
     if any(op == c[0] for c in CASTS):
         return f"{op}/-/{_g(stmt, 'from', '')}>{_g(stmt, 'to', '')}"
-    if op == "for":
-        return f"for/-/{_g(stmt, 't', '')}"
+    if op in ("for", "if", "while"):
+        return f"{op}/-/{_g(stmt, 't', '')}"
     if op == "call":
         return "call/-/i32"
     raise RecipeError(f"unknown op {op!r}")
@@ -170,7 +175,7 @@ def kind_of(stmt) -> str:
 
 def kind_sig(kind: str) -> dict:
     op, pred, ty = kind.split("/")
-    name = {"for": "scf.for", "call": "func.call"}.get(op, "arith." + op)
+    name = {"for": "scf.for", "if": "scf.if", "while": "scf.while", "call": "func.call"}.get(op, "arith." + op)
     return {"op": name, "pred": pred, "ty": ty}
 
 
@@ -204,8 +209,20 @@ def all_kinds() -> list[tuple[str, dict]]:
     for t in INT_T:
         out.append({"op": "for", "t": t, "lb": {"c": 0}, "ub": {"r": 0, "m": 7}, "step": 1,
                     "iters": [["i32", 1]], "body": [{"op": "addi", "t": "i32", "a": 0, "b": 1}], "y": [0]})
+    for t in INT_T + FLT_T:
+        out.append({"op": "if", "t": t, "c": 0, "a": 1, "b": 0})
+    out.append({"op": "while", "t": "i32", "n": 1, "x": 0})
     out.append({"op": "call", "args": [["i32", 0]]})
-    return [(kind_of(s), s) for s in out]
+    pairs = [(kind_of(s), s) for s in out]
+    for t in INT_T:     # a loop whose loop-carried value is its own induction variable
+        pairs.append((f"for/yields_iv/{t}", {"op": "for", "t": t, "lb": {"c": 0}, "ub": {"r": 0, "m": 7}, "step": 1,
+                                            "iters": [[t, 1]], "body": [], "y": [1], "yields_iv": 1}))
+    # a loop that yields a value defined outside of it (second result; the first one is a plain counter)
+    pairs.append(("for/yields_outer/index", {"op": "for", "t": "index", "lb": {"c": 0}, "ub": {"r": 0, "m": 7},
+                                             "step": 1, "iters": [["i32", 0], ["f64", 1]],
+                                             "body": [{"op": "addi", "t": "i32", "a": 0, "b": 0}], "y": [0, 2],
+                                             "yields_outer": 1}))
+    return pairs
 
 
 def _stmt_types(stmt):
@@ -236,10 +253,23 @@ def probe_recipes(kind: str, stmt: dict) -> list[dict]:
 
 def probe_recipe(kind: str, stmt: dict) -> dict:
     """One-op program + boundary inputs for a kind."""
-    if stmt["op"] == "for":
+    if stmt["op"] == "for" and stmt.get("yields_outer"):
+        # v = x * y ; (r0, r1) = for i in 0..(n & 7) iter(c = k, a = x) { yield c + c, v } ; return r0, v
+        prog = {"args": ["index", "i32", "f64", "f64"],
+                "body": [{"op": "mulf", "t": "f64", "a": 1, "b": 0}, stmt], "ret": [["i32", 0], ["f64", 1]]}
+    elif stmt["op"] == "for" and stmt.get("yields_iv"):
+        t = stmt["t"]
+        prog = {"args": [t, t], "body": [stmt], "ret": [[t, 0]]}     # ub = arg1 & 7, init = arg0
+    elif stmt["op"] == "for":
         args = ["i32", "i32"] if stmt["t"] == "i32" else ["index", "i32"]
         # ub = arg0 & 7 ; iter = arg1 ; body: acc + iv-or-acc
         prog = {"args": args, "body": [stmt], "ret": [["i32", 0]]}
+    elif stmt["op"] == "while":
+        prog = {"args": ["i32", "i32"], "body": [stmt], "ret": [["i32", 0]]}
+    elif stmt["op"] == "if":
+        t = stmt["t"]
+        prog = {"args": ["i32", "i32", t, t],
+                "body": [{"op": "cmpi", "t": "i32", "p": 2, "a": 1, "b": 0}, stmt], "ret": [[t, 0]]}
     elif stmt["op"] == "const":
         return {"kind": "L1", "prog": {"args": ["i32"], "body": [stmt], "ret": [[stmt["t"], 0]]},
                 "inputs": [[0], [0xFFFFFFFF]]}
@@ -309,6 +339,8 @@ class _Builder:
         self.topbit = False
         self.uses_call = False
         self.top_types: list[list[str]] = []    # result types of every top-level statement
+        self.top_kinds: list[str] = []          # kind of every top-level statement (as built)
+        self.ysafe = False      # loops only yield values defined in their body (or the iter_arg itself)
 
     def new(self) -> str:
         self.n += 1
@@ -359,6 +391,7 @@ class _Builder:
             self.stmt(scope, s, ind, depth)
             if top:
                 self.top_types.append([ty for _, ty in scope[before:]][-self._nres:] if self._nres else [])
+                self.top_kinds.append(self.kinds[-1])
 
     def stmt(self, scope, s, ind, depth) -> None:
         kind = kind_of(s)
@@ -423,7 +456,43 @@ class _Builder:
         elif op == "for":
             if depth >= 2:
                 raise RecipeError("loops nested too deep")
-            self._for(scope, s, ind, depth)
+            self._for(scope, s, ind, depth)      # records its own kind / result count
+            return
+        elif op == "if":
+            t = _ty(_g(s, "t", ""), INT_T + FLT_T)
+            c = self.ref(scope, "i1", _g(s, "c"), ind)
+            a = self.ref(scope, t, _g(s, "a"), ind)
+            b = self.ref(scope, t, _g(s, "b"), ind)
+            name = self.new()
+            self.emit(ind, f"{name} = scf.if {c} -> ({t}) {{")
+            self.emit(ind + 1, f"scf.yield {a} : {t}")
+            self.emit(ind, "} else {")
+            self.emit(ind + 1, f"scf.yield {b} : {t}")
+            self.emit(ind, "}")
+            scope.append((name, t))
+            self.has_cmp = True
+        elif op == "while":
+            _ty(_g(s, "t", ""), ("i32",))
+            n = self.ref(scope, "i32", _g(s, "n"), ind)
+            x = self.ref(scope, "i32", _g(s, "x"), ind)
+            m = self.const(scope, "i32", 7, ind)
+            n0, r0, r1 = self.new(), self.new(), self.new()
+            k, acc, k2, acc2, z, c, one, k3, acc3 = (self.new() for _ in range(9))
+            self.emit(ind, f"{n0} = arith.andi {n}, {m} : i32")
+            self.emit(ind, f"{r0}, {r1} = scf.while ({k} = {n0}, {acc} = {x}) : (i32, i32) -> (i32, i32) {{")
+            self.emit(ind + 1, f"{z} = arith.constant 0 : i32")
+            self.emit(ind + 1, f"{c} = arith.cmpi ne, {k}, {z} : i32")
+            self.emit(ind + 1, f"scf.condition({c}) {k}, {acc} : i32, i32")
+            self.emit(ind, "} do {")
+            self.emit(ind, f"^bb0({k2}: i32, {acc2}: i32):")
+            self.emit(ind + 1, f"{one} = arith.constant 1 : i32")
+            self.emit(ind + 1, f"{k3} = arith.subi {k2}, {one} : i32")
+            self.emit(ind + 1, f"{acc3} = arith.addi {acc2}, {k2} : i32")
+            self.emit(ind + 1, f"scf.yield {k3}, {acc3} : i32, i32")
+            self.emit(ind, "}")
+            scope.append((n0, "i32"))
+            scope.append((r1, "i32"))
+            self.has_loop = True
         elif op == "call":
             args = _g(s, "args", [])
             if not isinstance(args, list) or len(args) != 1:
@@ -477,18 +546,36 @@ class _Builder:
         ys = _g(s, "y", [])
         if not isinstance(ys, list):
             raise RecipeError("y must be a list")
-        yv = [self.ref(inner, ty, ys[i] if i < len(ys) else 0, ind + 1) for i, ty in enumerate(tys)]
+        nouter = len(scope) + 1 + len(bargs)        # entries of `inner` that are not defined by the body
+        yv = []
+        for i, ty in enumerate(tys):
+            r = ys[i] if i < len(ys) else 0
+            if self.ysafe:
+                ysc = [(bargs[i], ty)] + inner[nouter:]
+                yv.append(self.ref(ysc, ty, r, ind + 1))
+            else:
+                yv.append(self.ref(inner, ty, r, ind + 1))
+        local = {n for n, _ in inner[nouter:]}
+        shape = "-"
+        for i, v in enumerate(yv):
+            if self.ysafe:
+                break
+            if v == iv:
+                shape = "yields_iv"
+                break
+            if v not in local and v != bargs[i]:
+                shape = "yields_outer"
         self.emit(ind + 1, f"scf.yield {', '.join(yv)} : {', '.join(tys)}")
         self.emit(ind, "}")
         for r, ty in zip(res, tys):
             scope.append((r, ty))
         self.has_loop = True
-        self.kinds.append(kind_of(s))
+        self.kinds.append(f"for/{shape}/{t}")
         self._nres = len(tys)
 
 
 class Built:
-    __slots__ = ("text", "args", "rets", "kinds", "has_cmp", "has_loop", "topbit", "top_types")
+    __slots__ = ("text", "args", "rets", "kinds", "has_cmp", "has_loop", "topbit", "top_types", "top_kinds")
 
 
 def build_prog(prog) -> Built:
@@ -499,6 +586,7 @@ def build_prog(prog) -> Built:
         _ty(t, INT_T + FLT_T)
     b = _Builder()
     b._nres = 1
+    b.ysafe = bool(_g(prog, "ysafe", 0))
     scope = [(f"%a{i}", t) for i, t in enumerate(args)]
     hdr = ", ".join(f"%a{i}: {t}" for i, t in enumerate(args))
     b.stmts(scope, _g(prog, "body", []), 2, 0, top=True)
@@ -524,6 +612,7 @@ def build_prog(prog) -> Built:
     out.text = "\n".join(lines)
     out.args, out.rets, out.kinds = list(args), rt, b.kinds
     out.has_cmp, out.has_loop, out.topbit, out.top_types = b.has_cmp, b.has_loop, b.topbit, b.top_types
+    out.top_kinds = b.top_kinds
     return out
 
 
@@ -651,7 +740,9 @@ def value_ok(t: str, got: int, want) -> bool:
     raise RecipeError(t)
 
 
-def show(t: str, got: int) -> str:
+def show(t: str, got) -> str:
+    if got is None:
+        return "<no value>"
     if t == "f32":
         return f"{got:#018x} ({rvsim.bits_to_float(rvsim.unbox_s(got), 's')!r})"
     if t == "f64":
@@ -710,7 +801,11 @@ def l1_compare(prog, inputs):
     for i, (vec, vals) in enumerate(zip(inputs, refs)):
         if vals is None:
             continue
-        got = l1_results(low, bt, vec)
+        try:
+            got = l1_results(low, bt, vec)
+        except (rvsim.MachineFault, rvsim.InvalidAssembly) as e:
+            out["mism"].append((i, 0, None, f"{vals!r} (lowered program: {type(e).__name__}: {e})"))
+            continue
         if len(got) != len(bt.rets):
             raise AssertionError("lowered function returns a different number of values")
         for j, (t, g, w) in enumerate(zip(bt.rets, got, vals)):
@@ -735,13 +830,13 @@ def localise_l1(prog, vec):
     for k in range(len(body)):
         tys = bt_full.top_types[k] if k < len(bt_full.top_types) else []
         for j, t in enumerate(reversed(tys)):
-            sub = {"args": prog["args"], "body": body[:k + 1], "ret": [[t, j]]}
+            sub = {"args": prog["args"], "body": body[:k + 1], "ret": [[t, j]], "ysafe": _g(prog, "ysafe", 0)}
             try:
                 r = l1_compare(sub, [vec])
             except RecipeError:
                 continue
             if r["status"] == "ok" and r["mism"]:
-                return kind_of(body[k]), sub, r
+                return bt_full.top_kinds[k], sub, r
     return None, None, None
 
 
@@ -975,7 +1070,10 @@ def check_l2(h, recipe, label="L2") -> str:
                 stage, kind = l2_stage(prog, pipe, vec)
                 ks = kind_sig(kind) if stage == "lowering" else {"op": "-", "pred": "-"}
                 bad = True
-                sig = {"check": "L2_asm", "what": "result", "stage": stage, "op": ks["op"], "pred": ks["pred"]}
+                shape = ("for_yields_iv" if any(k.startswith("for/yields_iv/") for k in bt.kinds) else
+                         "for_yields_outer" if any(k.startswith("for/yields_outer/") for k in bt.kinds) else "-")
+                sig = {"check": "L2_asm", "what": "result", "stage": stage, "op": ks["op"], "pred": ks["pred"],
+                       "shape": shape}
                 h.mismatch(sig, recipe,
                            f"input {vec} (args {bt.args}), machine seed {seed * 31 + i}: {rn} after ret = "
                            f"{show(t, g)}, source result {j} = {w!r} (first wrong stage: {stage})\n"
@@ -1125,14 +1223,12 @@ def build_l3(recipe, ret_override=None):
     return text, nargs, opnames, rets
 
 
-_L3T: dict = {}
-
-
 def _l3t(name: str) -> str:
-    """Type of an L3 value by naming convention (%aN = argument register aN)."""
+    """Type of an L3 value by naming convention (%aN = argument register aN); values defined by
+    get_register are patched afterwards by _retype_l3."""
     if name.startswith("%a"):
         return f"!riscv.reg<{name[1:]}>"
-    return _L3T.get(name, "!riscv.reg")
+    return "!riscv.reg"
 
 
 def l3_run(module, nargs, vec, seed):
@@ -1288,6 +1384,27 @@ def l3_directed(full: bool):
                           {"op": "lw", "b": 0, "i": c2}, {"op": "lw", "b": 1, "i": 0}], ret=(0, 1))
 
 
+def l2_directed(ok2):
+    """Enumerated L2 programs: every supported binary op with a boundary constant on either side (the
+    shapes the in-pipeline folds and the `li`/`addi` printing see)."""
+    n = 0
+    for kind, tmpl in ok2:
+        op = tmpl["op"]
+        if not (op in INT_BIN or op in FLT_BIN) or tmpl["t"] == "i1":
+            continue
+        t = tmpl["t"]
+        pool = BOUNDARY[t] if t in INT_T else BOUNDARY[t][:12]
+        ins = [[v] for v in BOUNDARY[t][:10]]
+        for c in pool:
+            for a, b in ((1, 0), (0, 1)):
+                n += 1
+                yield {"kind": "L2", "prog": {"args": [t], "body": [{"op": "const", "t": t, "v": c},
+                                                                     {"op": op, "t": t, "a": a, "b": b}],
+                                      "ret": [[t, 0]]},
+                       "inputs": ins, "seed": n, "pipe": n % 2,
+                       "prealloc": [] if n % 3 else [[0, "s2"], [1, "fs3"], [2, "s0"]]}
+
+
 # ----------------------------------------------------------------------------------------------
 # strategies
 # ----------------------------------------------------------------------------------------------
@@ -1311,7 +1428,7 @@ def _groups(allowed: list[tuple[str, dict]]):
     g: dict[str, list] = {}
     for kind, tmpl in allowed:
         op = tmpl["op"]
-        if op in ("for", "call"):
+        if op in ("for", "call", "if", "while"):
             continue
         cat = ("const" if op == "const" else "cmpi" if op == "cmpi" else "cmpf" if op == "cmpf" else
                "div" if op in DIVS else "shift" if op in SHIFTS else "intbin" if op in INT_BIN else
@@ -1320,7 +1437,7 @@ def _groups(allowed: list[tuple[str, dict]]):
     return [g[k] for k in sorted(g)]
 
 
-def _simple_stmt(groups):
+def _simple_stmt(groups, kinds):
     refs = st.integers(0, 5)
 
     def fill(args):
@@ -1328,6 +1445,8 @@ def _simple_stmt(groups):
         s = dict(tmpl)
         if s["op"] == "const":
             s["v"] = {"f32": vf, "f64": vd, "i1": vi & 1}.get(s["t"], vi)
+            if kind_of(s) not in kinds:       # e.g. -0.0 while constant/negzero/f64 is excluded
+                s["v"] ^= 1
             return s
         for k, v in (("a", a), ("b", b), ("c", c)):
             if k in s:
@@ -1358,7 +1477,7 @@ def _for_stmt(simple, types, nested: bool):
 def prog_strategy(allowed: list[tuple[str, dict]], max_body: int, l2: bool):
     kinds = {k for k, _ in allowed}
     groups = _groups(allowed)
-    simple = _simple_stmt(groups)
+    simple = _simple_stmt(groups, kinds)
     types = ["i32", "index"]
     if any(t["op"] in FLT_BIN or t["op"] == "negf" for _, t in allowed):
         types += [ft for ft in FLT_T if any(k.endswith("/" + ft) and not k.startswith("cmpf") and
@@ -1368,6 +1487,13 @@ def prog_strategy(allowed: list[tuple[str, dict]], max_body: int, l2: bool):
     if loops:
         fs = _for_stmt(simple, types, True).map(lambda s: s)
         elems.append(st.tuples(fs).map(lambda t: t[0] if t[0]["t"] in loops else dict(t[0], t=loops[0])))
+    ifs = [t for t in INT_T + FLT_T if f"if/-/{t}" in kinds and t in types]
+    if ifs and any(k.startswith("cmp") for k in kinds):
+        elems.append(st.tuples(st.sampled_from(ifs), st.integers(0, 3), st.integers(0, 3), st.integers(0, 3)).map(
+            lambda t: {"op": "if", "t": t[0], "c": t[1], "a": t[2], "b": t[3]}))
+    if "while/-/i32" in kinds:
+        elems.append(st.tuples(st.integers(0, 3), st.integers(0, 3)).map(
+            lambda t: {"op": "while", "t": "i32", "n": t[0], "x": t[1]}))
     if "call/-/i32" in kinds:
         elems.append(st.tuples(st.integers(0, 3)).map(lambda t: {"op": "call", "args": [["i32", t[0]]]}))
     ret_types = list(types) + ([] if l2 else ["i1"] if any(k.startswith("cmp") for k in kinds) else [])
@@ -1380,7 +1506,9 @@ def prog_strategy(allowed: list[tuple[str, dict]], max_body: int, l2: bool):
                             min_size=1, max_size=2))
         nin = draw(st.integers(3, 6))
         inputs = [[draw(_pattern(t)) for t in args] for _ in range(nin)]
-        return {"prog": {"args": args, "body": body, "ret": ret}, "inputs": inputs}
+        free = all(f"for/yields_iv/{t}" in kinds for t in loops) and "for/yields_outer/index" in kinds
+        ysafe = draw(st.sampled_from([0, 0, 1])) if free else 1
+        return {"prog": {"args": args, "body": body, "ret": ret, "ysafe": ysafe}, "inputs": inputs}
     return prog()
 
 
@@ -1473,6 +1601,8 @@ def probe_all(h):
                 h.exclude(f"unsupported:{kind}")
             elif s1 == "bad":
                 h.exclude(f"probe_failed:{kind}")
+            elif s2 == "bad":
+                h.exclude(f"L2_probe_failed:{kind}")
             elif s2 != "ok":
                 h.exclude(f"L2_unsupported:{kind}:{s2}")
     return table, kinds
@@ -1481,15 +1611,23 @@ def probe_all(h):
 def checks(h):
     table, kinds = probe_all(h)
     ok1 = [(k, t) for k, t in kinds if table[k]["l1"] == "ok"]
-    ok2 = [(k, t) for k, t in kinds if table[k]["l1"] == "ok" and table[k]["l2"] == "ok"]
+    # kinds whose L2 probe is rejected or wrong leave the L2 generation (the probe reports the defect)
+    # (if even the simplest program is wrong at L2 the defect is global and nothing is steered around)
+    global_bad = table["addi/-/i32"]["l2"] == "bad"
+    ok2 = [(k, t) for k, t in kinds if table[k]["l1"] == "ok" and
+           (table[k]["l2"] == "ok" or (global_bad and table[k]["l2"] == "bad"))]
     if ok1:
-        h.hyp("L1_programs", l1_strategy(ok1), lambda r: check_l1(h, r), h.scale(60, 1500), seed_salt=1)
+        h.hyp("L1_programs", l1_strategy(ok1), lambda r: check_l1(h, r), h.scale(60, 3000), seed_salt=1)
     if ok2:
-        h.hyp("L2_programs", l2_strategy(ok2), lambda r: check_l2(h, r), h.scale(60, 1500), seed_salt=2)
+        h.hyp("L2_programs", l2_strategy(ok2), lambda r: check_l2(h, r), h.scale(60, 3000), seed_salt=2)
+    for i, rec in enumerate(l2_directed(ok2)):
+        if i % h.nshards == h.shard:
+            if kind_of(rec["prog"]["body"][0]) in table and table[kind_of(rec["prog"]["body"][0])]["l1"] == "ok":
+                check_l2(h, rec, label="L2_directed")
     for i, rec in enumerate(l3_directed(not h.quick)):
         if i % h.nshards == h.shard:
             check_l3(h, rec, label="L3_directed", distinct=True)
-    h.hyp("L3_snippets", l3_strategy(), lambda r: check_l3(h, r), h.scale(250, 6000), seed_salt=3)
+    h.hyp("L3_snippets", l3_strategy(), lambda r: check_l3(h, r), h.scale(250, 8000), seed_salt=3)
 
 
 def replay(h, recipe):
